@@ -313,6 +313,19 @@ def check_state(o, recs, kdev, ctx, root, hist):
                 if exc is None:
                     ctx.count("validated")
                     judge_recordings(axs, wrecs, mask, normalize, ctx, root, detail)
+            # recordings with gaps (nan samples): drawing them must leave the caller's samples alone
+            work = copy.deepcopy(o)
+            wrecs = copy.deepcopy(recs)
+            wrecs[0].ns.amplitude[1] = np.nan
+            wrecs[-1].vt.amplitude[0] = np.nan
+            fig = _Fig.fig or plt.figure()
+            fig.clf()
+            axs = fig.subplots(3, 1)
+            _guarded(lambda: PP.plot_seismic_recordings_3c(wrecs, axs=axs, normalize=normalize), work, wrecs, ctx, root,
+                     dict(hist=list(hist), normalize=normalize, recordings="two nan samples (gaps)"),
+                     "plot_seismic_recordings_3c:recordings-with-gaps")
+            ctx.count("figures")
+            ctx.count("gap_recordings_drawn")
         for dmc in ("lognormal", "normal"):
             work = copy.deepcopy(o)
             wrecs = copy.deepcopy(recs)
@@ -404,20 +417,21 @@ def check_state(o, recs, kdev, ctx, root, hist):
                     judge_mesh(spy.meshes, work, dmc, ctx, root, detail, "plot_azimuthal_contour_3d")
                 for num in set(plt.get_fignums()) - nfig:
                     plt.close(num)
-            work = copy.deepcopy(o)
-            detail = dict(hist=list(hist), distribution_mc=dmc)
-            nfig = set(plt.get_fignums())
-            res, exc = _guarded(lambda: PP.plot_azimuthal_summary(work, distribution_mc=dmc, distribution_fn=dmc),
-                                work, None, ctx, root, detail, "plot_azimuthal_summary")
-            ctx.count("figures")
-            if exc is None and judgeable:
-                ctx.count("validated")
-                fig, axs = res
-                opts = {k: v[0] for k, v in SINGLE_PANEL_SPACE.items()}
-                opts.update(distribution_mc=dmc, distribution_fn=dmc)
-                judge_single_panel(axs[2], work, opts, ctx, root, detail, "plot_azimuthal_summary:curves-panel")
-            for num in set(plt.get_fignums()) - nfig:
-                plt.close(num)
+            for dfn in ("lognormal", "normal"):     # the two distributions are independent options
+                work = copy.deepcopy(o)
+                detail = dict(hist=list(hist), distribution_mc=dmc, distribution_fn=dfn)
+                nfig = set(plt.get_fignums())
+                res, exc = _guarded(lambda: PP.plot_azimuthal_summary(work, distribution_mc=dmc, distribution_fn=dfn),
+                                    work, None, ctx, root, detail, "plot_azimuthal_summary")
+                ctx.count("figures")
+                if exc is None and judgeable:
+                    ctx.count("validated")
+                    fig, axs = res
+                    opts = {k: v[0] for k, v in SINGLE_PANEL_SPACE.items()}
+                    opts.update(distribution_mc=dmc, distribution_fn=dfn)
+                    judge_single_panel(axs[2], work, opts, ctx, root, detail, "plot_azimuthal_summary:curves-panel")
+                for num in set(plt.get_fignums()) - nfig:
+                    plt.close(num)
 
 
 class _MeshSpy:
@@ -557,8 +571,8 @@ class TradSystem(c05.System):
         self.kdev = kdev
         keep = []
         for op in self.ops:     # reduced menu: the states matter here, not the transitions
-            if op["op"] == "U" and op["kw"] is None:
-                keep.append(op)
+            if op["op"] == "U" and (op["kw"] is None or "height" in op["kw"]):
+                keep.append(op)         # incl. the peak options that exclude the tallest peaks
             elif op["op"] == "F" and op["dfn"] == op["dmc"] == "lognormal" and op["rng"] == [None, None]:
                 keep.append(op)
             elif op["op"] in ("M", "T", "A", "X"):
@@ -657,6 +671,15 @@ def _base_roots(tier):
         out.append(dict(kind="trad", grid="geo", F=7, shapes=["p1", "p5", "p3", "up"], depth=1, kdev=1))
         out.append(dict(kind="azi", grid="lin", F=7, shapes_by_az=[["p2", "p4", "p3"], ["p1", "twopk", "p5"]],
                         depth=1, kdev=1))
+        # one accepted window 30 times stronger than the others: under the normal assumption the standard
+        # deviation exceeds the mean and the -1 sigma curve is negative
+        loud = [A.shape("p2", 7), [1.1 * v for v in A.shape("p2", 7)], [30.0 * v for v in A.shape("p3", 7)]]
+        out.append(dict(kind="trad", grid="lin", F=7, shapes=["p2", "p2", "p3"], rows=loud, depth=0, kdev=1))
+        out.append(dict(kind="azi", grid="lin", F=7, shapes_by_az=[["p2", "p2", "p3"], ["p2", "p3", "p2"]],
+                        rows_by_az=[loud, [loud[0], loud[2], loud[1]]], depth=0, kdev=1))
+        # every window has a high and a lower peak: peak options (height <= 3.6) that exclude the high one decide
+        # which peak of the MEAN curve is marked
+        out.append(dict(kind="trad", grid="lin", F=7, shapes=["twopk", "twopk", "twopk"], depth=1, kdev=0))
         # azimuths that are not stored in ascending order
         out.append(dict(kind="azi", grid="lin", F=7, shapes_by_az=[["p2", "p4", "p3"], ["p1", "twopk", "p5"],
                                                                    ["p3", "p3", "p4"]],
@@ -679,6 +702,11 @@ def _base_roots(tier):
     out.append(dict(kind="azi", grid="lin", F=7, shapes_by_az=[["p2", "p4", "p3"], ["p1", "twopk", "p5"],
                                                                ["p3", "p3", "p4"]],
                     az_values=[90.0, 0.0, 45.0], depth=1, kdev=0))
+    out.append(dict(kind="trad", grid="lin", F=7, shapes=["twopk", "twopk", "twopk"], depth=2, kdev=1))
+    loud = [A.shape("p2", 7), [1.1 * v for v in A.shape("p2", 7)], [30.0 * v for v in A.shape("p3", 7)]]
+    out.append(dict(kind="trad", grid="lin", F=7, shapes=["p2", "p2", "p3"], rows=loud, depth=1, kdev=2))
+    out.append(dict(kind="azi", grid="lin", F=7, shapes_by_az=[["p2", "p2", "p3"], ["p2", "p3", "p2"]],
+                    rows_by_az=[loud, [loud[0], loud[2], loud[1]]], depth=1, kdev=1))
     out.append(dict(kind="azi", grid="lin", F=7, shapes_by_az=[["p2", "p4", "p3"], ["p1", "twopk", "p5"]],
                     depth=3, kdev=0, reaccept=True, swap_same_azimuth=True, ops_subset="MX-same"))
     for vals in ([1, 2, 3, 2, 1, 2, 1], [1, 2, 3, 4, 5, 6, 7], [3, 1, 2, 1, 3, 1, 2]):
